@@ -2,16 +2,20 @@
 
 Deductive kernel (pyvc + z3): modutf7_decode terminates (variant) and raises only ValueError; modutf7_encode is total and
 yields printable ASCII; Commands.parse lets nothing but the continuation interrupt escape whatever the command parsers
-raise (NotParseable, ValueError incl. UnicodeDecodeError and the int() digit limit, LookupError, RecursionError).
+raise (NotParseable, ValueError incl. UnicodeDecodeError and the int() digit limit, LookupError, RecursionError);
+IMAPConnection._run_state (contracts/runstate.py, everything it calls abstract and free to raise anything the loop
+distinguishes): every command read is answered by exactly one response with its tag or by the error disconnect before the
+next one is read or the loop is left, cleanup runs after every command, nothing is read after a terminal response, an
+exception escapes only after the error disconnect.
 The statement itself is a totality statement over the whole server (stream reading, dispatch, backends, response writing):
 it is decided on the stated scope by the bounded run of harness/e2e_total.py on the real servers."""
 from pyvc.prop import Property, Bounded
-from . import total as T
+from . import total as T, runstate as RS
 from harness.e2e_total import bounded_total
 
 PROPERTY = Property(
     'C06', 'Every input is answered: no hang, no internal error, no silent drop',
-    contracts=T.CONTRACTS,
+    contracts=T.CONTRACTS + RS.CONTRACTS,
     bounded=[Bounded('grammar-derived, mutated and raw command lines in three states; hostile messages fetched and searched; ManageSieve; maildir',
                      '61 seed commands (every built-in command) x ~90 mutations each (truncation, insertion of 22 special byte '
                      'strings, token drop/duplication/case/huge number/parenthesise/quote/literal forms) + 140 special lines (60000-byte '
